@@ -49,7 +49,7 @@ ROUTES = ('put_slice', 'put_one_false', 'view_setslice', 'view_replace', 'setatt
 
 def params(tier):
     if tier == 'quick':
-        return {'examples': 3000, 'wall': 80, 'case_timeout': 40}
+        return {'examples': 3000, 'wall': 120, 'case_timeout': 40}
 
     return {'examples': 30000, 'wall': 600, 'case_timeout': 60}
 
